@@ -737,6 +737,43 @@ func v1AddsBraces(src []byte) bool {
 	return found
 }
 
+// chainBrokenAfterColon: a brace-less chain `a: b:` whose next link starts on a
+// new line and whose innermost field carries an attribute (K27: v2 -s expands the
+// chain to nested braces on the first pass and collapses it again on the second).
+func chainBrokenAfterColon(src []byte) bool {
+	f, err := parse(src)
+	if err != nil {
+		return false
+	}
+	found := false
+	ast.Walk(f, func(n ast.Node) bool {
+		if x, ok := n.(*ast.Field); ok {
+			if s, ok := x.Value.(*ast.StructLit); ok && len(s.Elts) == 1 && !s.Lbrace.IsValid() {
+				if in, ok := s.Elts[0].(*ast.Field); ok && in.Pos().RelPos() >= token.Newline {
+					// innermost field of the chain
+					last := in
+					for {
+						s2, ok := last.Value.(*ast.StructLit)
+						if !ok || len(s2.Elts) != 1 || s2.Lbrace.IsValid() {
+							break
+						}
+						nx, ok := s2.Elts[0].(*ast.Field)
+						if !ok {
+							break
+						}
+						last = nx
+					}
+					if len(last.Attrs) > 0 {
+						found = true
+					}
+				}
+			}
+		}
+		return !found
+	}, nil)
+	return found
+}
+
 // hasDoubleParen: the source has ((x)) (printed as (x) with the position of
 // the inner parenthesis) or a list inside a string interpolation.
 func hasDoubleParen(src []byte) bool {
@@ -768,7 +805,7 @@ func hasDoubleParen(src []byte) bool {
 	return found
 }
 
-func converges(src []byte, r result, v2, simplify bool) string {
+func converges(src []byte, r result, v2, simplify bool, generic bool) string {
 	if r.verdict != "not-idempotent" || r.out == nil || r.out2 == nil {
 		return ""
 	}
@@ -780,8 +817,16 @@ func converges(src []byte, r result, v2, simplify bool) string {
 		kind = "K19 v1-braces-added-realign"
 	case v2 && stripChars(r.out, " \t\n,") == stripChars(r.out2, " \t\n,"):
 		kind = "K4 v2-call-closing-paren-comma"
+	case v2 && simplify && stripChars(r.out, " \t\n,{}") == stripChars(r.out2, " \t\n,{}") && chainBrokenAfterColon(src):
+		kind = "K27 v2-simplify-chain-broken-after-colon-settles-on-second-pass"
 	case !v2 && stripChars(r.out, " \t\n,") == stripChars(r.out2, " \t\n,") && hasDoubleParen(src):
 		kind = "K12 v1-double-paren-or-list-in-interpolation-second-pass"
+	case generic && stripChars(r.out, " \t\n,{}") == stripChars(r.out2, " \t\n,{}"):
+		// no specific trigger recognised: the effect-defined class "the layout needs a
+		// second pass" (blanks, line breaks, commas, optional braces only; below it is
+		// verified that the second pass is a fixed point with the same tree).  The check
+		// bounds how often this may happen.
+		kind = "K28 two-pass-layout-convergence"
 	default:
 		return ""
 	}
@@ -792,12 +837,12 @@ func converges(src []byte, r result, v2, simplify bool) string {
 }
 
 func classifyKnown(src []byte, v2, simplify bool, r result) string {
-	if k := converges(src, r, v2, simplify); k != "" {
+	if k := converges(src, r, v2, simplify, false); k != "" {
 		return k
 	}
 	in := analyse(src)
 	if in == nil {
-		return ""
+		return converges(src, r, v2, simplify, true)
 	}
 	type cand struct {
 		name  string
@@ -823,7 +868,7 @@ func classifyKnown(src []byte, v2, simplify bool, r result) string {
 		if r2.verdict == "ok" {
 			return name
 		}
-		if k := converges(masked, r2, v2, simplify); k != "" {
+		if k := converges(masked, r2, v2, simplify, true); k != "" {
 			return name + " + " + k
 		}
 		return ""
@@ -838,7 +883,10 @@ func classifyKnown(src []byte, v2, simplify bool, r result) string {
 		for _, c := range cands {
 			names = append(names, c.name)
 		}
-		return try(strings.Join(names, " + "), all)
+		if k := try(strings.Join(names, " + "), all); k != "" {
+			return k
+		}
 	}
-	return ""
+	// last resort: the effect-defined two-pass class
+	return converges(src, r, v2, simplify, true)
 }
